@@ -101,7 +101,9 @@ func (stdin *Stdin) ReadAll() ([]byte, error) {
 
 read:
 	stdin.mutex.Lock()
-	stdin.bRead = uint64(len(stdin.buffer))
+	// everything written has now been handed to a reader: earlier Read() calls
+	// plus this snapshot (calling ReadAll again stays idempotent)
+	stdin.bRead = stdin.bWritten
 	b := stdin.buffer
 	stdin.mutex.Unlock()
 	return b, nil
